@@ -60,11 +60,11 @@ Definition of_res {A} (r : Res A) : I A :=
   match r with Ok a => iret a | Raise e => Raise e | Fuel => Fuel end.
 
 (* ---- options ---- *)
-Definition htmlSafeModeFilter (s : session) (html : str) : str :=
-  match html_policy (s_mode s) with
+Definition htmlSafeModeFilter (s : ienv) (html : str) : str :=
+  match html_policy (en_mode s) with
   | PRaw => html
   | PDrop => []
-  | PReplace => s_repl s
+  | PReplace => en_repl s
   | PEscape => escape html
   end.
 
@@ -74,7 +74,7 @@ Fixpoint assoc_get (name : str) (l : list (str * str)) : option str :=
   | [] => None
   | (n, v) :: t => if str_eqb n name then Some v else assoc_get name t
   end.
-Definition getValue (s : session) (name : str) : option str := assoc_get name (s_macros s).
+Definition getValue (s : ienv) (name : str) : option str := assoc_get name (en_macros s).
 
 (* ---- utils.replaceInline ---- *)
 Definition replaceInline (mr sr : str -> I str) (text : option str) (e : expand) : I str :=
@@ -144,7 +144,7 @@ Definition param_repl (sr : str -> I str) (paramsList : list str) (mr : mres) : 
       if str_eqb p1 $"$$" then sr param else iret param
   end.
 
-Definition macro_repl (sr : str -> I str) (s : session) (text : str) (silent : bool)
+Definition macro_repl (sr : str -> I str) (s : ienv) (text : str) (silent : bool)
            (simple : bool) (m : mres) : I str :=
   let m0 := grp0 m in
   if starts_with [92] m0 then iret (tl m0) else
@@ -185,7 +185,7 @@ Definition macro_repl (sr : str -> I str) (s : session) (text : str) (silent : b
       end
   end.
 
-Definition macros_render (sr : str -> I str) (s : session) (text : str) (silent : bool) : I str :=
+Definition macros_render (sr : str -> I str) (s : ienv) (text : str) (silent : bool) : I str :=
   r1 <-i isub re_macros_render_1 (macro_repl sr s text silent true) text ;;
   r2 <-i isub re_macros_render_0 (macro_repl sr s text silent false) r1 ;;
   if existsb (N.eqb 2) r2
@@ -296,7 +296,7 @@ Definition fragQuotes (n : nat) (qs : list qdef) (frags : list frag) : Res (list
   end.
 
 Section Spans.
-Variable s : session.
+Variable s : ienv.
 Variable sr : str -> I str.    (* nested spans.render *)
 
 Definition no_macros : str -> I str := fun t => iret t.
@@ -308,7 +308,7 @@ Definition replacement_text (rdef : rdef) (m : mres) : I str :=
     let ng := re_groups (r_re rdef) in
     match r_filter rdef with
     | RfNone => replaceMatch no_macros sr m ng (r_repl rdef) expand_none
-    | RfAnchor => if skipBlockAttributes (s_mode s) then iret []
+    | RfAnchor => if skipBlockAttributes (en_mode s) then iret []
                   else replaceMatch no_macros sr m ng (r_repl rdef) expand_none
     | RfHtml => match grp m 1 with
                 | Some g => iret (htmlSafeModeFilter s g)
@@ -366,29 +366,29 @@ Fixpoint postReplacements (segs : list (str * mres)) (saved : list frag) : Res s
   end.
 
 Definition spans_body (n : nat) (source : str) : I str :=
-  frags <-i fragReplacements n (s_repls s) [undone source] ;;
+  frags <-i fragReplacements n (en_repls s) [undone source] ;;
   let saved := filter f_done frags in
   let text := frag_placeholder_text frags in
-  qfrags <-i of_res (fragQuotes n (s_quotes s) [undone text]) ;;
+  qfrags <-i of_res (fragQuotes n (en_quotes s) [undone text]) ;;
   let result := flat_map (fun f => if f_done f then f_text f else escape (f_text f)) qfrags in
   let '(segs, tl) := re_scan re_spans_postReplacements_0 result in
   r <-i of_res (postReplacements segs saved) ;;
   iret (r ++ tl).
 End Spans.
 
-Fixpoint spans_render (n : nat) (s : session) (source : str) : I str :=
+Fixpoint spans_render (n : nat) (s : ienv) (source : str) : I str :=
   match n with
   | O => Fuel
   | S n' => spans_body s (spans_render n' s) n' source
   end.
 
 (* entry points used by the block layer *)
-Definition macros_render_top (n : nat) (s : session) (text : str) (silent : bool) : I str :=
+Definition macros_render_top (n : nat) (s : ienv) (text : str) (silent : bool) : I str :=
   macros_render (spans_render n s) s text silent.
 
-Definition replaceInline_top (n : nat) (s : session) (text : option str) (e : expand) : I str :=
+Definition replaceInline_top (n : nat) (s : ienv) (text : option str) (e : expand) : I str :=
   replaceInline (fun t => macros_render_top n s t false) (spans_render n s) text e.
 
-Definition replaceMatch_top (n : nat) (s : session) (m : mres) (ngroups : nat)
+Definition replaceMatch_top (n : nat) (s : ienv) (m : mres) (ngroups : nat)
            (replacement : str) (e : expand) : I str :=
   replaceMatch (fun t => macros_render_top n s t false) (spans_render n s) m ngroups replacement e.
